@@ -349,12 +349,20 @@ def modes_for(case, rng, thorough):
 
 def _work(job):
     import logging
+    import signal
     import warnings
 
     warnings.filterwarnings("ignore")
     logging.disable(logging.CRITICAL)
     case, modes = job
-    return run_oracle(case), [run_real(case, m) for m in modes]
+    signal.signal(signal.SIGALRM, H9._alarm)
+    signal.alarm(180)
+    try:
+        return run_oracle(case), [run_real(case, m) for m in modes]
+    except H9.JobTimeout:
+        raise RuntimeError("watchdog: case did not finish in 180 s: " + str(case)[:1500]) from None
+    finally:
+        signal.alarm(0)
 
 
 _pool = None
@@ -462,7 +470,7 @@ def run(ctx):
     rng = ctx.rng
     thorough = ctx.tier == "thorough" or not ctx.proof_ok
     cases = list(corpus())
-    n = ctx.n(150, 3000)
+    n = ctx.n(300, 3000)
     gens = [gen_powerlaw, gen_powerlaw, gen_powerlaw, gen_poly, gen_poly, gen_euler, gen_euler, gen_chain]
     while len(cases) < n:
         cases.append(gens[len(cases) % len(gens)](rng))
